@@ -48,6 +48,16 @@ Theorem C20_sampled_noise_model_unchanged : forall h nm internal,
 Proof. exact sampled_run_leaves_model. Qed.
 Print Assumptions C20_sampled_noise_model_unchanged.
 
+(* a call that the front-end refuses (a noisy circuit run that asks for the final state) is not a run: it leaves the parameter object as
+   it was, and after any history of runs AND refused calls the next run behaves as on a fresh object *)
+Theorem C20_refused_run_leaves_object : forall p q, fst (attempt_weak true true p) = p /\ fst (attempt_strong true true q) = q.
+Proof. exact refused_run_leaves_object. Qed.
+Print Assumptions C20_refused_run_leaves_object.
+Theorem C20_history_with_refusals_independent : forall h noisy p q,
+  run_weak noisy (weak_attempts h p) = run_weak noisy p /\ run_strong noisy (strong_attempts h q) = run_strong noisy q.
+Proof. exact attempts_history_independent. Qed.
+Print Assumptions C20_history_with_refusals_independent.
+
 (* result storage is re-initialised per run, as the SOURCE states it now (Gen/InitGen.v is regenerated from Observable.initialize on every
    run): the shape of Observable.trajectories and the length of Observable.results are a function of the parameter object of THIS run
    alone — one row per requested trajectory or shot, the columns the front-end models count — never of what an earlier run left behind *)
